@@ -297,10 +297,10 @@ PROPS["C08"] = dict(level="other", jobs=C08_JOBS, trusted_base=COMMON_TRUST + MO
 # ===================================================================================== C04
 C04_UNITS = ["kPow10Tab", "is_digit", "Parser.fields", "Parser.carry_one", "Parser.str2int", "Parser.parseFloatingFast", "Parser.parseNumber"]
 C04_JOBS = []
-for nb, shape, tho in ((12, None, False), (30, "SHAPE_ZEROS", False), (27, "SHAPE_LONGINT", False), (26, None, True)):
-    C04_JOBS.append(dict(id="C04.parseNumber.nb%d%s" % (nb, "." + shape[6:].lower() if shape else ""), src="c04_number.c", harness="h_parseNumber", units=C04_UNITS, defs=["NB=%d" % nb] + ([shape] if shape else []), arch="-",
+for nb, shape, tho in ((12, None, False), (30, "SHAPE_ZEROS", False), (21, "SHAPE_LONGINT", False), (23, "SHAPE_LONGINT", False), (27, "SHAPE_LONGINT", False), (26, None, True)):
+    C04_JOBS.append(dict(id="C04.parseNumber.nb%d%s" % (nb, "." + shape[6:].lower() if shape else ""), src="c04_number.c", harness="h_parseNumber", units=C04_UNITS, defs=["NB=%d" % nb] + ([shape] if shape else []) + (["LONGINT_FREE=%d" % (4 if nb == 27 else 2)] if shape == "SHAPE_LONGINT" else []), arch="-",
         route="B(len<=%d%s)" % (nb, ", " + shape[6:].lower() + " shape" if shape else ""),
-        bound="number text of at most %d bytes%s" % (nb, {None: "", "SHAPE_ZEROS": ", of the shape [-]0.00...0 + 3 arbitrary bytes", "SHAPE_LONGINT": ", of the shape [-]ddd...d (>= 22 digits) + 3 arbitrary bytes"}[shape]),
+        bound="number text of at most %d bytes%s" % (nb, {None: "", "SHAPE_ZEROS": ", of the shape [-]0.00...0 + 3 arbitrary bytes", "SHAPE_LONGINT": ", of the shape [-]ddd...d + %d arbitrary bytes (all but the last %d bytes after the first are digits)" % ((3, 4) if nb == 27 else (1, 2))}[shape]),
         thorough_only=tho, function="Parser::parseNumber (+str2int, carry_one, parseFloatingFast)", unwind=max(nb + 3, 18), object_bits=12, timeout=3000 if nb > 12 and not shape else 900, flags=["--slice-formula"], solver="cadical",
         replay="parsenumber",
         claims="bounded: accepts exactly the RFC 8259 number grammar and stops on the first byte that cannot continue it; integers within uint64 / int64 are delivered exactly with the right kind, others as Double; signed zero; the float converters are reached only with a non-zero mantissa and in-range table indices; a dropped non-zero digit is always reported (trunc) and never reaches the exact-mantissa path"))
